@@ -20,6 +20,7 @@ func init() {
 			{"C02.R2", "q", "shared: tmp + rename", c02r2},
 			{"C06.R3", "q", "fail-stop on unaligned data / rebuild error", c06r3},
 			{"C06.R4", "q", "new process starts a new data file", c06r4},
+			{"C06.R7", "q", "recovery visits every chunk id", c06r7},
 			{"C09.R3", "q", "shared: size + CRC gates on every read", c09r3},
 			{"C02.R4", "q", "shared: hints trusted only for the covered prefix", c02r4},
 		},
@@ -351,4 +352,51 @@ func c06r4(c *Ctx) {
 	}
 	// max is the largest existing chunk id: assigned the loop index for every existing file
 	c.check(ok, R, f.Key+": newHead = max + 1", c.pos(pos), "a restarted process appends to a fresh file", "after a restart the head is an existing data file: a torn tail left by the previous process would be appended to (and flush's size check compares against a stale size)")
+}
+
+func c06r7(c *Ctx) {
+	const R = "C06.R7"
+	f := c.fn(R, "store.Bucket.open")
+	if f == nil {
+		return
+	}
+	info := f.Info()
+	var loop *ast.ForStmt
+	for _, call := range f.CallsTo("store.Bucket.checkHintWithData") {
+		if f.EnclosingLit(call.Expr) != nil {
+			continue
+		}
+		for _, a := range f.Enclosing(call.Expr) {
+			if fs, ok := a.(*ast.ForStmt); ok && loop == nil {
+				loop = fs
+			}
+		}
+	}
+	if loop == nil || loop.Cond == nil {
+		c.undec(R, f.Key, "recovery loop not recognised")
+		return
+	}
+	be, ok := prog.Unparen(loop.Cond).(*ast.BinaryExpr)
+	okB := ok && be.Op == token.LSS && prog.ConstObjName(info, be.Y) == "store.MAX_NUM_CHUNK"
+	c.check(okB, R, f.Key+": hint/data reconciliation for every chunk id up to MAX_NUM_CHUNK", c.pos(loop), "i < MAX_NUM_CHUNK",
+		"the start-up loop that reconciles hints with data (and purges hint files of chunks without a data file) no longer runs up to MAX_NUM_CHUNK: stale hint splits of a chunk id that a later process reuses (head = max+1) are trusted for data written by that later process")
+	if g := c.fn(R, "store.Bucket.checkHintWithData"); g != nil {
+		ginfo := g.Info()
+		okP := false
+		for _, call := range g.CallsTo("store.hintMgr.RemoveHintfilesByChunk") {
+			for _, a := range g.GuardsAt(call.Expr) {
+				if prog.AtomCmp(a, token.EQL, func(e ast.Expr) bool {
+					for _, s := range g.SourcesAt(e, call.Expr) {
+						if prog.MentionsField(ginfo, s.Expr, "store.dataChunk.size") || strings.HasSuffix(s.Field, "size") {
+							return true
+						}
+					}
+					return false
+				}, prog.IsIntConst(ginfo, 0)) {
+					okP = true
+				}
+			}
+		}
+		c.check(okP, R, g.Key+": hints of an empty/missing data file are removed", g.Pos(), "size == 0 ⇒ RemoveHintfilesByChunk", "hint files of a chunk without data are no longer purged at start-up")
+	}
 }
